@@ -158,6 +158,7 @@ func (mw *msgWriter) Write(p []byte) (_ int, err error) {
 
 	defer func() {
 		if err != nil {
+			mw.releaseIfCloseSent(err)
 			err = fmt.Errorf("failed to write: %w", err)
 		}
 	}()
@@ -200,6 +201,9 @@ func (mw *msgWriter) Close() (err error) {
 		return errors.New("writer already closed")
 	}
 	mw.closed = true
+	defer func() {
+		mw.releaseIfCloseSent(err)
+	}()
 
 	if mw.flate {
 		err = mw.flateWriter.Flush()
@@ -218,6 +222,15 @@ func (mw *msgWriter) Close() (err error) {
 	}
 	mw.mu.unlock()
 	return nil
+}
+
+// releaseIfCloseSent releases the message lock of a writer that was refused
+// because the close frame has been sent. The connection is still open then, so
+// later writers must be refused the same way instead of waiting for this message.
+func (mw *msgWriter) releaseIfCloseSent(err error) {
+	if errors.Is(err, errCloseSent) {
+		mw.mu.unlock()
+	}
 }
 
 func (mw *msgWriter) close() {
